@@ -33,7 +33,8 @@ CONSTANTS NP0,        \* partitions at the beginning
           Latest,     \* auto.offset.reset = latest (else earliest)
           Refresh,    \* refresh_partitions
           MaxCrashes,
-          InOrder     \* proviso: batches of a partition complete in order
+          InOrder,    \* proviso: batches of a partition complete in order
+          Faults      \* TRUE: the pipeline may raise while a batch is pushed through it
 
 NoOffset == -1001
 Parts == 0 .. (MaxParts - 1)
@@ -115,6 +116,15 @@ EmitBatch(i) ==
     /\ emitted' = Append(emitted, <<fl[i].p, fl[i].lo, fl[i].hi>>)
     /\ UNCHANGED <<hw, nparts, committed, alive, positions, known, first, seed, origin, processed, lost, crashes, inc>>
 
+\* the batch is emitted and the pipeline raises while it is pushed through: its reference is never released, so it is never
+\* committed; the source goes on polling.  (Under the in-order proviso nothing behind it on its partition completes.)
+FailBatch(i) ==
+    /\ alive /\ i \in 1 .. Len(fl) /\ fl[i].st = "scheduled"
+    /\ \A j \in 1 .. (i - 1) : fl[j].st # "scheduled"
+    /\ fl' = [fl EXCEPT ![i].st = "failed"]
+    /\ emitted' = Append(emitted, <<fl[i].p, fl[i].lo, fl[i].hi>>)
+    /\ UNCHANGED <<hw, nparts, committed, alive, positions, known, first, seed, origin, processed, lost, crashes, inc>>
+
 \* the consumer has completely processed the batch: reference count reaches zero, commit callback queued
 Process(i) ==
     /\ alive /\ i \in 1 .. Len(fl) /\ fl[i].st = "emitted"
@@ -141,7 +151,7 @@ Crash ==
     /\ UNCHANGED <<hw, nparts, committed, positions, known, first, emitted, seed, origin, processed, inc>>
 
 Next == (\E p \in Parts : Produce(p)) \/ AddPartition \/ Start \/ PollCycle \/ Crash
-        \/ \E i \in 1 .. (MaxMsgs * MaxParts + 2) : EmitBatch(i) \/ Process(i) \/ CommitCb(i)
+        \/ \E i \in 1 .. (MaxMsgs * MaxParts + 2) : EmitBatch(i) \/ Process(i) \/ CommitCb(i) \/ (Faults /\ FailBatch(i))
 Spec == Init /\ [][Next]_vars
 
 ----------------------------------------------------------------------------
